@@ -225,7 +225,8 @@ def classify_check(c):
     if st in ("success", "unreachable", "satisfied", "covered"):
         return None
     if "unwinding assertion" in desc or cat in ("unwind",):
-        return ("inconclusive", "unwinding bound too small: " + desc)
+        loc = c.get("location") or {}
+        return ("inconclusive", "unwinding bound too small: %s in %s (%s:%s)" % (desc, c.get("function"), os.path.basename(loc.get("file") or "?"), loc.get("line")))
     if st in ("undetermined", "solver_error", "solvererror"):
         return ("inconclusive", "undetermined: " + desc)
     if st == "failure":
@@ -344,6 +345,8 @@ def main(argv):
         return 2
     if argv[0] == "setup":
         return setup()
+    if argv[0] == "dev":
+        return dev(argv[1:])
     prop = argv[0]
     tier = os.environ.get("VERIF_TIER", "quick")
     keep = "--keep" in argv
@@ -591,5 +594,47 @@ def setup():
                 log(open(os.path.join(scratch.dir, "setup.log"), errors="replace").read()[-3000:])
             clean_crate_artifacts()
         return 0 if rc == 0 else 2
+    finally:
+        scratch.cleanup()
+
+
+def dev(argv):
+    """developer mode: run the named obligations (substring match, comma separated) and print one line each"""
+    pats = argv[0].split(",")
+    registry = load_registry()
+    obls = [o for o in registry if o["engine"] == "kani" and any(p in o["name"] for p in pats)]
+    jobs = int(os.environ.get("VERIF_JOBS", "8"))
+    mem_gb = int(os.environ.get("VERIF_MEM_GB", "8"))
+    htimeout = int(os.environ.get("VERIF_HARNESS_TIMEOUT", "600"))
+    scratch = Scratch("--keep" in argv)
+    try:
+        if build_overlay(scratch.dir) is None:
+            return 2
+        with Lock():
+            rc, wall, data, logfile, cmd = run_kani(scratch.dir, obls, jobs, mem_gb, htimeout)
+        if data is None:
+            text = open(logfile, errors="replace").read()
+            errs = re.findall(r"(error(?:\[E\d+\])?:[^\n]*\n(?:[^\n]*\n){0,12})", text)
+            print("NO RESULT rc=%s" % rc)
+            print("".join(errs[:6])[-6000:] if errs else text[-3000:])
+            return 2
+        summ = summarize(data, obls)
+        for o in obls:
+            s_ = summ.get(o["harness"])
+            if not s_:
+                print("%-45s MISSING" % o["name"])
+                continue
+            st = s_["stats"]
+            print("%-45s %-8s wall=%5.0fs symex=%5.0fs solver=%5.0fs checks=%d covers_bad=%s" % (
+                o["name"], s_["status"], (s_["duration_ms"] or 0) / 1000, st.get("runtime_symex_s") or 0, st.get("runtime_solver_s") or 0,
+                s_["checks"], s_["covers_unsatisfied"]))
+            for f in s_["fails"][:6]:
+                print("     FAIL %s @ %s:%s" % (f["description"], (f["location"] or {}).get("file"), (f["location"] or {}).get("line")))
+            for i_ in s_["inconclusive"][:3]:
+                print("     INCONCLUSIVE %s" % i_[:200])
+            if s_["status"] != "Success" and not s_["fails"] and not s_["inconclusive"]:
+                print("     ERROR %s" % json.dumps(s_["error"])[:300])
+        print("total wall %.0fs" % wall)
+        return 0
     finally:
         scratch.cleanup()
